@@ -163,7 +163,7 @@ fn props() -> Vec<Property> {
     Property {
         id: "C03",
         title: "Requests and responses on the wire are spec-conformant gRPC",
-        scenarios: vec![scn_c01(), scn_c06_enc(), scn_c02_f(), scn_n_client_view(), scn_n_server_view(), Scenario { name: "N-unknown-path", engine: "N", run: nwire::run_unknown_path, quick: 6_000, thorough: 300_000, grid: 0, what: "raw h2 client -> tonic Server with three generated services: unknown method of a known service (generated fallback arm), unknown service and odd paths (router fallback): 200, content-type application/grpc, exactly one grpc-status 12, no body, no handler entered" }, Scenario { name: "F-origin-path", engine: "F", run: c03::run_origin, quick: 4_000, thorough: 150_000, grid: 0, what: "generated client built with_origin (with/without a path prefix, trailing slashes) in front of a foreign peer: :path keeps the prefix and ends in /package.Service/Method, POST, te, content-type, all four shapes" }],
+        scenarios: vec![scn_c01(), scn_c06_enc(), scn_c02_f(), scn_n_client_view(), scn_n_server_view(), Scenario { name: "F-odd-proto-names", engine: "F", run: c03::run_odd_names, quick: 2_000, thorough: 20_000, grid: 0, what: "a prost-generated service whose proto names are not canonical (service HTTPecho_v2, method get_URL): the generated client posts to, and the generated server serves, /simpb.HTTPecho_v2/get_URL; NamedService::NAME is the proto identifier" }, Scenario { name: "N-unknown-path", engine: "N", run: nwire::run_unknown_path, quick: 6_000, thorough: 300_000, grid: 0, what: "raw h2 client -> tonic Server with three generated services: unknown method of a known service (generated fallback arm), unknown service and odd paths (router fallback): 200, content-type application/grpc, exactly one grpc-status 12, no body, no handler entered" }, Scenario { name: "F-origin-path", engine: "F", run: c03::run_origin, quick: 4_000, thorough: 150_000, grid: 0, what: "generated client built with_origin (with/without a path prefix, trailing slashes) in front of a foreign peer: :path keeps the prefix and ends in /package.Service/Method, POST, te, content-type, all four shapes" }],
         rule: "passive wire monitor on the C01/C06 (and loopback) runs: every emitted body is parsed by the independent decoder; non-trivial/distinct as in the host scenario",
         real_vs_stub: RVS_F.to_vec(),
         assumptions: vec!["'nothing after the trailers block' is judged the way hyper's HTTP/2 sender consumes a body (stops after trailers / error / None / end-stream flag)"],
@@ -177,6 +177,7 @@ fn props() -> Vec<Property> {
             Scenario { name: "F-http-status", engine: "F", run: c04::run_http_status, quick: 4_000, thorough: 300_000, grid: 500, what: "HTTP status 100..=599 (enumerated completely first) with no grpc-status, with/without body and trailers" },
             Scenario { name: "F-status-code-bytes", engine: "F", run: c04::run_code_bytes, quick: 6_000, thorough: 360_000, grid: c04::CODE_GRID, what: "every 1-byte grpc-status value and every 2-byte value containing a digit (all legal header bytes), enumerated: only the canonical decimal codes may be read as a code" },
             Scenario { name: "F-reset", engine: "F", run: c04::run_reset, quick: 4_000, thorough: 300_000, grid: 16, what: "stream reset surfaced as an h2::Error body error, reasons 0..=15 enumerated first, before/after/inside messages" },
+            Scenario { name: "F-request-reset", engine: "F", run: c04::run_request_reset, quick: 6_000, thorough: 300_000, grid: 14, what: "the request body of a client-streaming / bidi call fails under the generated server (RST_STREAM reasons 0..=13 enumerated first, or a lost connection) after 0..3 messages, possibly inside a frame: the handler sees an error with the code of the gRPC table, never a clean end; what it read is a prefix" },
             scn_c02_f(),
             scn_n_hostile_server(),
             scn_n_server_view(),
@@ -268,6 +269,7 @@ fn props() -> Vec<Property> {
             Scenario { name: "N-midcall-death", engine: "N", run: c14::run_midcall, quick: 20_000, thorough: 1_000_000, grid: 0, what: "relaxed configuration: the first connection dies at a drawn byte offset (inside the HTTP/2 handshake, inside the request, inside the response) during a unary or server-streaming call; then calls at quiescent points must recover" },
             Scenario { name: "N-graceful-goaway", engine: "N", run: c14::run_goaway, quick: 10_000, thorough: 500_000, grid: 0, what: "the server retires connections gracefully (GOAWAY after max_connection_age 5 ms..1 s) while the channel is idle; 2..5 rounds of calls at quiescent points, lazy/eager, with/without client keep-alive: every round's call (at the latest the second attempt) succeeds on a fresh connection" },
             Scenario { name: "N-balanced-channel", engine: "N", run: c14::run_balanced, quick: 10_000, thorough: 500_000, grid: 0, what: "a balanced channel (tower p2c Balance over one lazily connected endpoint, as Channel::balance_channel builds; hook H4 supplies the simulated connector; more endpoints would bring in p2c's entropy-seeded random choice) under a script of failing/succeeding attempts and killed connections: no call hangs, failures are UNAVAILABLE and never outnumber the failed attempts, and the channel recovers once attempts succeed" },
+            Scenario { name: "N-connect-timeout", engine: "N", run: c14::run_connect_timeout, quick: 4_000, thorough: 100_000, grid: 0, what: "Endpoint::connect_timeout (50 ms / 2 s) against a connection attempt that never completes or completes too late, eager and lazy channels over the simulated connector: the attempt is given up after the timeout (definite error, no hang) and the next call succeeds" },
         ],
         rule: "one run = one fault script (or one kill offset) x lazy/eager x network fragmentation; every run non-trivial; distinct = distinct hash of structural tape decisions and of the ordered network-event kinds; the first 726 runs enumerate all scripts of length <= 5",
         real_vs_stub: RVS_N.to_vec(),
